@@ -181,6 +181,13 @@ def iter (σ : Nat → Nat → Nat → Nat) (kind : Kind) : Nat → St
 
 /-! ### getters -/
 
+/-- Any public read-only method of the polytope classes called between two subdivisions (`get_nodes`,
+`get_neighbours_of`, `get_polytope_adj_matrix`, `get_cdist_matrix`, `get_edges_of_categories`, `get_N_element_graph`,
+`get_half_of_hypercube`, `get_all_cells`, `__str__`, …): a step of a history that returns something and leaves the
+object (graph, levels, faces, indices, counters) as it is.  The harness checks this on the implementation by comparing
+the complete graph before and after every such call and by evaluating the statement after the whole history. -/
+def observe (s : St) : St := s
+
 def insertByIdx (nd : Node) : List Node → List Node
   | [] => [nd]
   | a :: t => if nd.idx < a.idx then nd :: a :: t else a :: insertByIdx nd t
